@@ -610,6 +610,11 @@ void GlobalGraph::nodeToDot_(const GlobalGraph::Node& node, ostream& out,  std::
 
 bool GlobalGraph::isTree() const
 {
+  // a tree has one edge less than it has nodes (the traversal below follows
+  // the node table and would not see a reciprocal pair or a loop on the root)
+  if (getNumberOfEdges() + 1 != getNumberOfNodes())
+    return false;
+
   set<GlobalGraph::Node> metNodes;
   bool nodesAreMetOnlyOnce = nodesAreMetOnlyOnce_(root_, metNodes, root_);
 
